@@ -2,6 +2,7 @@ use crate::report::Report;
 use crate::Ctx;
 
 pub mod c01;
+pub mod c03;
 pub mod c14;
 pub mod c15;
 pub mod c16;
@@ -9,6 +10,9 @@ pub mod c16;
 pub fn run(ctx: &Ctx) -> Report {
   match ctx.prop.as_str() {
     "C01" => c01::run(ctx),
+    "C02" => c03::run_c02(ctx),
+    "C03" => c03::run_c03(ctx),
+    "C13" => c03::run_c13(ctx),
     "C14" => c14::run(ctx),
     "C15" => c15::run(ctx),
     "C16" => c16::run(ctx),
